@@ -290,6 +290,11 @@ def mqtt_cases(rng, n_random=16):
         out.append(mq(kind, 1, 5, [(0, 33), (1, 31), (3, 32)]))
         out.append(mq(kind, 2, 5, [(0, 33), (1, 31), (2, 32)]))
         out.append(mq(kind, 2, 5, [(0, 30), (1, 31), (1, 32)]))
+        # CONNACK carries Server Keep Alive k (ops 341..343): the client pings once per k seconds whatever it asked
+        # for itself -- also when it asked for none (0), and when it asked for less or for more
+        for own, k in ((0, 1), (0, 2), (3, 1), (1, 2), (1, 3), (2, 2), (0, 3)):
+            out.append(mq(kind, own, 5, [(0, 340 + k)]))
+        out.append(mq(kind, 0, 5, [(1, 341), (3, 3)]))
     for _ in range(n_random):
         kind = rng.choice([3, 5])
         ka = rng.choice([1, 2, 3, 4])
